@@ -140,21 +140,7 @@ class LeafVisitStage(object):
         return Counter(tuple(p) for p in self.cfg.reachable_leaves())
 
     def _build(self):
-        from toasty.pyramid import Pyramid
-        cfg = self.cfg
-        if cfg.kind == "generic":
-            p = Pyramid.new_generic(cfg.depth)
-        elif cfg.kind == "toast":
-            p = Pyramid.new_toast(cfg.depth, coordsys=self.coordsys)
-        elif cfg.kind == "deep":
-            accept = cfg.accept
-            p = Pyramid.new_toast_filtered(cfg.depth, lambda t: t.pos in accept, coordsys=self.coordsys)
-        else:
-            rejects = cfg.rejects
-            p = Pyramid.new_toast_filtered(cfg.depth, lambda t: t.pos not in rejects, coordsys=self.coordsys)
-        if cfg.apex is not None:
-            p = p.subpyramid(cfg.apex)
-        return p
+        return self.cfg.build(coordsys=self.coordsys)
 
     def run(self, parallel, rec, env_dir=None):
         coordsys = self.coordsys
@@ -166,7 +152,7 @@ class LeafVisitStage(object):
                 rec.note("geom-mismatch", *key)
             rec.end(key)
 
-        self._build().visit_leaves(callback, parallel=parallel)
+        self._build().visit_leaves(callback, parallel=parallel, **common.pkw())
 
 
 class TransformStage(object):
@@ -194,7 +180,7 @@ class TransformStage(object):
                 rec.note("bad-buf", *key)
             rec.end(key)
 
-        _do_a_transform(None, self.depth, lambda: np.zeros(4), do_one, parallel=parallel)
+        _do_a_transform(None, self.depth, lambda: np.zeros(4), do_one, parallel=parallel, **common.pkw())
 
 
 class WalkStage(object):
@@ -218,7 +204,7 @@ class WalkStage(object):
             rec.begin(key)
             rec.end(key)
 
-        self.cfg.build().walk(callback, parallel=parallel)
+        self.cfg.build().walk(callback, parallel=parallel, **common.pkw())
 
 
 class U8TransformStage(object):
@@ -259,7 +245,12 @@ class U8TransformStage(object):
             orig(buf, pos, pio_in, pio_out)
             rec.end(key)
 
-        transform._do_a_transform(pio, self.depth, lambda: np.empty((256, 256, 3), dtype=np.uint8), do_one, parallel=parallel)
+        # the public entry point, with the per-tile function it looks up at call time wrapped for recording
+        transform._u8_to_rgb_do_one = do_one
+        try:
+            transform.u8_to_rgb(pio, self.depth, parallel=parallel, **common.pkw())
+        finally:
+            transform._u8_to_rgb_do_one = orig
 
     def check_outputs(self, d):
         from PIL import Image as PILImage
@@ -276,3 +267,158 @@ class U8TransformStage(object):
                 if arr.shape != (256, 256, 3) or abs(int(arr[128, 128, 0]) - want) > 3 or abs(int(arr[3, 250, 2]) - want) > 3:
                     return "output for %s has wrong content (want grey %d, got %s shape %s)" % (key, want, arr[128, 128], arr.shape)
         return None
+
+
+class F16TransformStage(U8TransformStage):
+    """The real f16x3_to_rgb transform (three-plane half-float tiles -> png) through its public entry point."""
+    name = "f16x3_to_rgb"
+
+    def __init__(self, ch):
+        U8TransformStage.__init__(self, ch)
+        self.clip = (1.0, 4.0)[ch.draw(2, kind="clip")]
+
+    def describe(self):
+        return dict(U8TransformStage.describe(self), clip=self.clip)
+
+    def value(self, key):
+        n, x, y = key
+        return ((17 * n + 5 * x + 3 * y + 1) % 23) / 16.0
+
+    def populate(self, d):
+        from toasty.image import Image
+        pio = PyramidIO(d, default_format="npy")
+        for key in self.present:
+            arr = np.full((256, 256, 3), self.value(key), dtype=np.float16)
+            arr[:8, :8] = np.nan            # an undefined corner maps to black
+            pio.write_image(Pos(*key), Image.from_array(arr))
+        return pio
+
+    def run(self, parallel, rec, env_dir=None):
+        from toasty import transform
+        pio = PyramidIO(env_dir, default_format="npy")
+        orig = transform._float_to_rgb_do_one
+
+        def do_one(buf, pos, pio_in, pio_out, tr, out_format):
+            key = tuple(pos)
+            rec.begin(key)
+            orig(buf, pos, pio_in, pio_out, tr, out_format)
+            rec.end(key)
+
+        transform._float_to_rgb_do_one = do_one
+        try:
+            transform.f16x3_to_rgb(pio, self.depth, clip=self.clip, parallel=parallel, **common.pkw())
+        finally:
+            transform._float_to_rgb_do_one = orig
+
+    def check_outputs(self, d):
+        from PIL import Image as PILImage
+        pio = PyramidIO(d, default_format="npy")
+        for p in generate_pos(self.depth):
+            key = tuple(p)
+            path = pio.tile_path(p, format="png", makedirs=False)
+            if (key in self.present) != os.path.exists(path):
+                return "output %s for %s: exists=%s but input present=%s" % (path.rsplit('/', 3)[-3:], key, os.path.exists(path), key in self.present)
+            if key in self.present:
+                v = float(np.float16(self.value(key)))
+                want = int(np.clip(np.sqrt(min(max(v / self.clip, 0.0), 1.0)) * 255, 0, 255))
+                arr = np.asarray(PILImage.open(path))
+                if arr.shape != (256, 256, 3) or abs(int(arr[128, 128, 0]) - want) > 1 or abs(int(arr[250, 3, 2]) - want) > 1 or arr[2, 2].any():
+                    return "output for %s has wrong content (want grey %d with a black corner, got %s / corner %s, shape %s)" % (key, want, arr[128, 128], arr[2, 2], arr.shape)
+        return None
+
+
+class RealCascadeStage(object):
+    """The real cascade (cascade_images + TileMerger) over a small pyramid in which one tile file is corrupt
+    (truncated): reading it fails inside the real walk callback - serially and in every parallel mode the cascade
+    must fail visibly (C19 only)."""
+    name = "real_cascade"
+    needs_dir = True
+    intrinsic_fault = True
+    must_fail_serial = True
+
+    def __init__(self, ch):
+        self.start = 1 + ch.draw(2, kind="start")
+        self.fmt = ("npy", "fits", "png")[ch.draw(3, kind="format")]
+        n = 2 ** self.start
+        self.leaves = [(self.start, x, y) for y in range(n) for x in range(n) if ch.draw(4, kind="leaf_present") != 3]
+        if not self.leaves:
+            self.leaves = [(self.start, 0, 0)]
+        self.victim = self.leaves[ch.draw(len(self.leaves), kind="corrupt_tile")]
+        self.how = ch.draw(3, kind="corruption")     # 0 truncate to half, 1 truncate to 10 bytes, 2 garbage
+
+    def describe(self):
+        return {"stage": self.name, "start": self.start, "format": self.fmt, "n_leaves": len(self.leaves), "corrupt_tile": self.victim,
+                "corruption": ("half", "10 bytes", "garbage")[self.how]}
+
+    def expected(self):
+        return Counter({"x": 1})
+
+    def populate(self, d):
+        from toasty.image import Image
+        pio = PyramidIO(d, default_format=self.fmt)
+        for k, key in enumerate(self.leaves):
+            if self.fmt == "png":
+                arr = np.full((256, 256, 4), 255, dtype=np.uint8)
+                arr[..., 0] = (k * 37) % 256
+            else:
+                arr = np.full((256, 256), float(k + 1), dtype=np.float32)
+            pio.write_image(Pos(*key), Image.from_array(arr))
+        path = pio.tile_path(Pos(*self.victim), makedirs=False)
+        size = os.path.getsize(path)
+        with open(path, "r+b") as f:
+            if self.how == 0:
+                f.truncate(size // 2)
+            elif self.how == 1:
+                f.truncate(10)
+            else:
+                f.seek(0)
+                f.write(b"\x00garbage\xff" * 8)
+                f.truncate(100)
+
+    def run(self, parallel, rec, env_dir=None):
+        from toasty.merge import averaging_merger, cascade_images
+        cascade_images(PyramidIO(env_dir, default_format=self.fmt), self.start, averaging_merger, parallel=parallel, **common.pkw())
+
+
+class RealSamplingStage(object):
+    """The real TOAST sampling (sample_layer / ToastSampler) with a sampler that raises on its k-th call (C19 only)."""
+    name = "real_sampling"
+    needs_dir = True
+    intrinsic_fault = True
+    must_fail_serial = True
+
+    def __init__(self, ch):
+        self.depth = 1 + ch.draw(2, p0=0.8, kind="depth")
+        self.k = ch.draw(4 ** self.depth, kind="fail_at_call")
+        self.err = ERROR_KINDS[ch.draw(len(ERROR_KINDS), kind="error_kind")]
+        self.update = ch.draw(2, kind="update_mode") == 1
+
+    def describe(self):
+        return {"stage": self.name, "depth": self.depth, "fail_at_call": self.k, "error": self.err.__name__, "update": self.update}
+
+    def expected(self):
+        return Counter({"x": 1})
+
+    def populate(self, d):
+        pass
+
+    def run(self, parallel, rec, env_dir=None):
+        from toasty import toast as ttoast
+        calls = [0]
+        k, err = self.k, self.err
+
+        def sampler(lon, lat):
+            n = calls[0]
+            calls[0] += 1
+            if n == k:
+                if issubclass(err, OSError):
+                    import errno
+                    raise err(errno.EIO, "injected sampler failure")
+                raise err("injected sampler failure")
+            return (lon + lat).astype(np.float32)
+
+        pio = PyramidIO(env_dir, default_format="npy")
+        if self.update:
+            ttoast.sample_layer_filtered(pio, lambda t: True, sampler, self.depth, parallel=parallel, **common.pkw())
+        else:
+            ttoast.sample_layer(pio, sampler, self.depth, parallel=parallel, **common.pkw())
